@@ -419,7 +419,7 @@ func run(rc *kernel.RunCtx) {
 	realFormat := slogutil.Format("")
 	if tp.Bool(1, 4) {
 		sink = &lineSink{}
-		realFormat = []slogutil.Format{slogutil.FormatAdGuardLegacy, slogutil.FormatText, slogutil.FormatJSONHybrid, slogutil.FormatJSON}[tp.Choose(4)]
+		realFormat = []slogutil.Format{slogutil.FormatAdGuardLegacy, slogutil.FormatText, slogutil.FormatJSONHybrid, slogutil.FormatJSON, slogutil.FormatDefault}[tp.Choose(5)]
 		if realFormat == slogutil.FormatAdGuardLegacy {
 			aglog.SetOutput(sink)
 			aglog.SetFlags(0)
@@ -571,7 +571,17 @@ func run(rc *kernel.RunCtx) {
 			r.RemoteAddr = sp.raddr
 			r.RequestURI = sp.uri
 			r.Header.Set("X-Id", sp.hdr)
-			sp.req = r.WithContext(context.WithValue(baseCtx, ctxKey{}, sp.ctxVal))
+			reqCtx := context.WithValue(baseCtx, ctxKey{}, sp.ctxVal)
+			if tp.Bool(1, 8) {
+				// The client has given up: the request's context is done while
+				// the handler runs.  What the handler logs and the "finished"
+				// record are due all the same.
+				c, cancel := context.WithCancel(reqCtx)
+				cancel()
+				reqCtx = c
+				rc.Stats.Fault("request-context-done")
+			}
+			sp.req = r.WithContext(reqCtx)
 			w.specs = append(w.specs, sp)
 			plans[ti] = append(plans[ti], sp)
 		}
@@ -747,6 +757,15 @@ var ridRe = regexp.MustCompile(`rid"?[=:]"?(\d+)`)
 // request id): it must carry that request's host, method, remote address and
 // request URI as the handler's context logger has to, whatever the format.
 func checkSink(rc *kernel.RunCtx, specs []*reqSpec, out []byte, format slogutil.Format) {
+	seen := map[int]bool{}
+	defer func() {
+		for _, sp := range specs {
+			if rc.Violation == nil && !seen[sp.id] {
+				rc.Fail("log-records", "LogMiddleware.Wrap", fmt.Sprintf(
+					"base logger of format %q: the record that the handler of request %d logged through its context logger is missing from the output", format, sp.id))
+			}
+		}
+	}()
 	for _, line := range strings.Split(string(out), "\n") {
 		m := ridRe.FindStringSubmatch(line)
 		if m == nil || !strings.Contains(line, "inner") {
@@ -760,6 +779,7 @@ func checkSink(rc *kernel.RunCtx, specs []*reqSpec, out []byte, format slogutil.
 			continue
 		}
 		sp := specs[id]
+		seen[id] = true
 		missing := ""
 		for _, f := range [][2]string{{"host", sp.host}, {"method", sp.lMethod}, {"raddr", sp.raddr}, {"request_uri", sp.lURI}} {
 			if f[1] == "" {
